@@ -22,7 +22,7 @@ RULE = (
     "and the oil pressures straddle the bubble point. Distinct = hash of the case record."
 )
 ASSUMPTIONS = [
-    "gas constant 10.73159 psia ft3/(lbmol R), air molecular weight 28.964, standard conditions 60 F / 14.70 psia, 5.615 ft3/bbl (the constants the library documents)",
+    "gas constant 10.73159 psia ft3/(lbmol R), air molecular weight 28.964, 5.615 ft3/bbl (the constants the library documents); standard conditions are the caller's (b_factor_DAK's temperature_standard / pressure_standard arguments, positional or keyword) or the documented defaults 60 F / 14.70 psia",
     "gas compressibility is compared with a Richardson-extrapolated central difference of ln(library density) (relative 2e-6)",
     "stock-tank oil mass 62.37*gamma_o + 0.0136*gamma_g*Rs lb/ft3 of stock-tank oil (Standing), brine 62.368 + 0.438603 S + 1.60074e-3 S^2",
     "'viscosity increases with pressure' is asserted for pressure ratios >= 1.001 with a 1e-12 relative tolerance",
@@ -42,7 +42,18 @@ def strategy_(draw):
     g = draw(gens.gas_state())
     oil = draw(gens.oil_params())
     return {
-        "gas": {"T": g["T"], "p": g["p"], "tpc": g["tpc"], "ppc": g["ppc"], "sg": draw(st.floats(0.55, 1.2)), "ratio": draw(st.floats(1.001, 3.0))},
+        "gas": {
+            "T": g["T"],
+            "p": g["p"],
+            "tpc": g["tpc"],
+            "ppc": g["ppc"],
+            "sg": draw(st.floats(0.55, 1.2)),
+            "ratio": draw(st.floats(1.001, 3.0)),
+            # Bg is referred to the caller's standard conditions: the documented defaults (None) or another common base
+            "t_std": draw(st.sampled_from([None, None, 60.0, 59.0, 68.0, 32.0])),
+            "p_std": draw(st.sampled_from([None, None, 14.7, 14.65, 14.696, 14.73, 15.025])),
+            "std_as_kw": draw(st.booleans()),
+        },
         "oil": oil,
         "oil_fracs": [draw(st.floats(0.0, 1.0)) for _ in range(draw(st.integers(1, 6)))],
         "water": {
@@ -105,14 +116,27 @@ def check_case(case) -> Result:
     p2 = min(p * g["ratio"], 30.0 * ppc)
     z = float(lib("z_factor_DAK", G.z_factor_DAK, T, p, tpc, ppc))
     rho = float(lib("density_DAK", G.density_DAK, T, p, tpc, ppc, sg))
-    bg = float(lib("b_factor_DAK", G.b_factor_DAK, T, p, tpc, ppc))
+    t_std, p_std = g.get("t_std"), g.get("p_std")
+    std_kw = {}
+    std_pos = ()
+    if t_std is not None or p_std is not None:
+        t_std = 60.0 if t_std is None else t_std
+        p_std = 14.70 if p_std is None else p_std
+        if g.get("std_as_kw", True):
+            std_kw = {"temperature_standard": t_std, "pressure_standard": p_std}
+        else:
+            std_pos = (t_std, p_std)
+    else:
+        t_std, p_std = 60.0, 14.70
+    res.labels["std_conditions"] = "default" if not (std_kw or std_pos) else ("keyword" if std_kw else "positional")
+    bg = float(lib("b_factor_DAK", G.b_factor_DAK, T, p, tpc, ppc, *std_pos, **std_kw))
     want = p * MW_AIR * sg / (z * R_GAS * (T + 459.67))
     res.check("C07/gas-density-real-gas-law", abs(rho - want), 1e-12 * abs(want), f"density_DAK={rho!r} pM/(ZRT)={want!r} (Z={z!r}) at T_r={tr!r} p_r={pr!r};")
-    const = MW_AIR * sg * 14.70 / (R_GAS * (60 + 459.67) * 5.615)
+    const = MW_AIR * sg * p_std / (R_GAS * (t_std + 459.67) * 5.615)
     res.check("C07/gas-density-times-Bg", abs(rho * bg - const), 1e-12 * const, f"rho*Bg={rho * bg!r} expected standard-condition mass {const!r} at p={p!r};")
     if p2 > p * 1.0005:
         rho2 = float(lib("density_DAK", G.density_DAK, T, p2, tpc, ppc, sg))
-        bg2 = float(lib("b_factor_DAK", G.b_factor_DAK, T, p2, tpc, ppc))
+        bg2 = float(lib("b_factor_DAK", G.b_factor_DAK, T, p2, tpc, ppc, *std_pos, **std_kw))
         res.check("C07/gas-density-times-Bg", abs(rho2 * bg2 - rho * bg), 1e-12 * const, f"rho*Bg differs between p={p!r} ({rho * bg!r}) and p={p2!r} ({rho2 * bg2!r});")
         mu1 = float(lib("viscosity_Sutton", G.viscosity_Sutton, T, p, tpc, ppc, sg))
         mu2 = float(lib("viscosity_Sutton", G.viscosity_Sutton, T, p2, tpc, ppc, sg))
